@@ -45,6 +45,19 @@ Theorem C13_make_mut_releases_own_chain_only : forall (others : N) (ci : cinst) 
   released (ci_chain ci') = all_values (ci_chain ci) /\ ci_helper ci' = ci_helper ci /\ ci_held ci' = [].
 Proof. exact make_mut_releases_own_only. Qed.
 
+(* `&mut` results of mocked methods (output kind MutLending, or a `&mut` leaf under Option): the answer function's make_mut acts on
+   the instance's own chain exactly as a direct make_mut does, and every way to reach make_mut leaves one cell, releases the
+   instance's own earlier values, keeps the helper's chain and ends every earlier borrow *)
+Theorem C13_mocked_mut_result_is_make_mut : forall (others : N) (ci : cinst) (ty v : N), (ty <? 2)%N = true ->
+  cop_step others ci (CMutM ty v) = cop_step others ci (CMut ty v).
+Proof. exact mocked_mut_result_is_make_mut. Qed.
+
+Theorem C13_any_make_mut_releases_own_chain_only : forall (others : N) (ci : cinst) (o : cop), is_make_mut o = true ->
+  let ci' := fst (cop_step others ci o) in
+  released (ci_chain ci') = all_values (ci_chain ci) /\ ci_helper ci' = ci_helper ci /\ ci_held ci' = [] /\
+  length (cells (ci_chain ci')) = 1%nat.
+Proof. exact any_make_mut_releases_own_only. Qed.
+
 (* over ANY sequence of operations on the instance: what was lent through the helper is never released and
    never reordered, and every reference the caller still holds points at a value that is still in a chain *)
 Theorem C13_helper_values_never_released : forall (others : N) (ops : list cop) (ci : cinst),
